@@ -37,7 +37,7 @@ class ClearkeyHandler(RequestHandlerBase):
         req = flask.request.json
         try:
             kids = req["kids"]
-        except KeyError:
+        except (KeyError, TypeError):
             return jsonify('kids property missing', 400)
         try:
             kids = list(map(self.base64url_decode, kids))
@@ -54,7 +54,8 @@ class ClearkeyHandler(RequestHandlerBase):
                 "keys": keys,
                 "type": req["type"]
             }
-        except (TypeError, ValueError, KeyError) as err:
+        except (TypeError, ValueError, KeyError, AttributeError) as err:
+            # e.g. a key ID that is not a string
             result["error"] = f'Error: {err}'
         return jsonify(result)
 
